@@ -3,6 +3,7 @@ from .mesh_attributes import ArrayAttribute
 from ..geometry import Vec
 from .. import utils
 from .. import config
+import numpy as np
 
 class RawMeshData:
     """
@@ -141,7 +142,7 @@ class RawMeshData:
 
     def _prepare_vertices(self):
         for iv in self.id_vertices:
-            self.vertices[iv] = Vec(self.vertices[iv])
+            self.vertices[iv] = Vec(np.asarray(self.vertices[iv], dtype=float)) # coordinates are reals: integer / single-precision rows would overflow or lose digits in later arithmetic
 
     def _prepare_edges(self):
         N = len(self.vertices)
